@@ -40,12 +40,12 @@ type Literal struct {
 	ErrClass   string `json:"error"`
 }
 
-var Routes = []string{"run-string", "compile-run", "parse-run", "eval", "script-reuse", "copy", "rerun-same-runtime"}
+var Routes = []string{"run-string", "compile-run", "parse-run", "eval", "script-reuse", "copy"}
 
 func init() {
 	run.Register(&run.Check{
 		ID:   "C01",
-		Rule: "programs are generated as syntax trees (scenario templates for each interaction the property names + grammar-directed random statements/expressions over the variables in scope), rendered to text for otto and interpreted directly by the ES5.1 reference model; each program runs through 7 routes; a program is non-trivial when the model trace has >= 3 host calls and it uses >= 2 of {closure/fn-var, this/call/apply/bind, try, labelled jump, switch, eval, with, arguments, new}; distinct by source text",
+		Rule: "programs are generated as syntax trees (scenario templates for each interaction the property names + grammar-directed random statements/expressions over the variables in scope), rendered to text for otto and interpreted directly by the ES5.1 reference model; each program runs through 6 routes (Run of text, Compile+Run, ParseFile+Run, eval, a Script run a second time on a second runtime, Copy of a used runtime); a program is non-trivial when the model trace has >= 3 host calls and it uses >= 2 of {closure/fn-var, this/call/apply/bind, try, labelled jump, switch, eval, with, arguments, new}; distinct by source text",
 		Assumptions: []string{
 			"oracle: internal/refjs (ES5.1 clauses 8-13 + the built-ins generated programs use), written from the specification, no otto code",
 			"number-to-string digits inside the model come from strconv shortest formatting (independent big-number oracle is used by C06)",
